@@ -155,17 +155,79 @@ theorem total_mapTab (f : Tab → Tab) (m : Mixture) : total (mapTab f m) = tota
     have : mapTab f ((p, tb) :: t) = (p, (f tb).norm) :: mapTab f t := by simp [mapTab]
     rw [this, total_cons, total_cons, ih]
 
-theorem total_measure (q : Nat) (det : Bool) (m : Mixture) : total (measure q det m).1 = total m := by
+/-- (before the F2 repair) the per-branch measurement keeps every weight -/
+theorem total_measureOld (q : Nat) (det : Bool) (m : Mixture) : total (measureOld q det m).1 = total m := by
   induction m with
-  | nil => simp [measure, total_nil]
+  | nil => simp [measureOld, total_nil]
   | cons h t ih =>
     obtain ⟨p, tb⟩ := h
-    simp only [measure, List.map_cons, List.map_map] at ih ⊢
+    simp only [measureOld, List.map_cons, List.map_map] at ih ⊢
     rw [total_cons, total_cons]
     congr 1
 
-theorem measure_length (q : Nat) (det : Bool) (m : Mixture) :
-    (measure q det m).1.length = m.length ∧ (measure q det m).2.length = m.length := by
+theorem measureOld_length (q : Nat) (det : Bool) (m : Mixture) :
+    (measureOld q det m).1.length = m.length ∧ (measureOld q det m).2.length = m.length := by
+  simp [measureOld]
+
+theorem measureJoint_cons (q : Nat) (o : Bool) (x : Rat × Tab) (m : Mixture) :
+    measureJoint q o (x :: m) = (match jointBranch q o x with | some y => y :: measureJoint q o m | none => measureJoint q o m) := by
+  unfold measureJoint
+  rw [List.filterMap_cons]
+  cases jointBranch q o x <;> rfl
+
+/-- the two candidate lists of the joint measurement share out the weight: `weight[0] + weight[1] = Σ p_i` -/
+theorem total_measureJoint_pair (q : Nat) : ∀ (m : Mixture),
+    total (measureJoint q false m) + total (measureJoint q true m) = total m
+  | [] => by simp [measureJoint, total_nil]
+  | (w, t) :: rest => by
+    have ih := total_measureJoint_pair q rest
+    rw [measureJoint_cons, measureJoint_cons, total_cons]
+    unfold jointBranch
+    cases hp : t.pivot q with
+    | some p =>
+      simp only [total_cons]
+      linarith
+    | none =>
+      have e : ∀ o, (t.zMeasure q o).2.1 = (t.measScratch q).r := by
+        intro o; unfold Tab.zMeasure; rw [hp]
+      simp only [e]
+      cases (t.measScratch q).r <;> simp [total_cons] <;> linarith
+
+theorem total_map_scale (c d : Rat) : ∀ (m : Mixture), total (m.map fun x => (x.1 * c / d, x.2)) = total m * c / d
+  | [] => by simp [total_nil]
+  | (w, t) :: rest => by
+    simp only [List.map_cons, total_cons]
+    rw [total_map_scale c d rest]; ring
+
+theorem total_map_zero (f : Tab → Tab) : ∀ (m : Mixture), total (m.map fun x => (0 * x.1, f x.2)) = 0
+  | [] => by simp [total_nil]
+  | (w, t) :: rest => by
+    simp only [List.map_cons, total_cons]
+    rw [total_map_zero f rest]; ring
+
+/-- **the repaired (joint) measurement keeps the total weight** — or, when the selected outcome carries no weight, sets every
+    weight to `0.0 · p_i` -/
+theorem total_measure (q : Nat) (det : Bool) (m : Mixture) :
+    total (measure q det m).1 = total m ∨ total (measure q det m).1 = 0 := by
+  have hp := total_measureJoint_pair q m
+  unfold measure
+  simp only
+  cases (if det = true then !isclose0 (total (measureJoint q true m)) else isclose0 (total (measureJoint q false m)))
+  · simp only [Bool.false_eq_true, if_false]
+    by_cases h : 0 < total (measureJoint q false m)
+    · rw [if_pos h, total_map_scale, hp]
+      exact Or.inl (mul_div_cancel_left₀ _ (ne_of_gt h))
+    · rw [if_neg h]
+      exact Or.inr (total_map_zero (fun t => (t.zMeasure q false).1.norm) m)
+  · simp only [if_true]
+    by_cases h : 0 < total (measureJoint q true m)
+    · rw [if_pos h, total_map_scale, hp]
+      exact Or.inl (mul_div_cancel_left₀ _ (ne_of_gt h))
+    · rw [if_neg h]
+      exact Or.inr (total_map_zero (fun t => (t.zMeasure q true).1.norm) m)
+
+theorem measure_lengths (q : Nat) (det : Bool) (m : Mixture) :
+    (measure q det m).2.length = (measure q det m).1.length := by
   simp [measure]
 
 theorem total_conditioned (f : Tab → Tab) : ∀ (outs : List Bool) (m : Mixture), outs.length = m.length →
@@ -343,21 +405,38 @@ theorem stabMap2_total (n q1 q2 : Nat) (f : Tab → Tab) (s s' : StabSt) (h : st
   · cases h
 
 theorem stabClassical_total (n q1 q2 c : Nat) (det : Bool) (f : Tab → Tab) (reset : Bool) (s s' : StabSt)
-    (h : stabClassical n q1 q2 c det f reset s = .ok s') : Mix.total s'.mix = Mix.total s.mix := by
+    (h : stabClassical n q1 q2 c det f reset s = .ok s') :
+    Mix.total s'.mix = Mix.total s.mix ∨ Mix.total s'.mix = 0 := by
   unfold stabClassical at h; split at h
   · injection h with h; subst h
-    have hl := Mix.measure_length q1 det s.mix
-    have hc := Mix.total_conditioned f (Mix.measure q1 det s.mix).2 (Mix.measure q1 det s.mix).1 (by rw [hl.1, hl.2])
-    cases reset <;> simp [Mix.total_mapTab, hc, Mix.total_measure]
+    have hl := Mix.measure_lengths q1 det s.mix
+    have hc := Mix.total_conditioned f (Mix.measure q1 det s.mix).2 (Mix.measure q1 det s.mix).1 hl
+    have ht := Mix.total_measure q1 det s.mix
+    cases reset <;> simp only [Bool.false_eq_true, if_false, if_true, Mix.total_mapTab, hc] <;> exact ht
   · cases h
 
 theorem stabMeasZ_total (n q1 c : Nat) (det : Bool) (s s' : StabSt) (h : stabMeasZ n q1 c det s = .ok s') :
-    Mix.total s'.mix = Mix.total s.mix := by
+    Mix.total s'.mix = Mix.total s.mix ∨ Mix.total s'.mix = 0 := by
   unfold stabMeasZ at h; split at h
-  · injection h with h; subst h; simp [Mix.total_measure]
+  · injection h with h; subst h; exact Mix.total_measure q1 det s.mix
   · cases h
 
 theorem stabGate_total (np n : Nat) (det : Bool) (op : COp) (s s' : StabSt) (h : stabGate np n det op s = .ok s') :
+    Mix.total s'.mix = Mix.total s.mix ∨ Mix.total s'.mix = 0 := by
+  unfold stabGate at h
+  simp only at h
+  cases hk : op.kind <;> simp only [hk] at h
+  all_goals first
+    | (injection h with h; subst h; exact Or.inl rfl)
+    | exact Or.inl (stabMap1_total _ _ _ _ _ h)
+    | exact Or.inl (stabMap2_total _ _ _ _ _ _ h)
+    | exact stabClassical_total _ _ _ _ _ _ _ _ _ h
+    | exact stabMeasZ_total _ _ _ _ _ _ h
+    | cases h
+
+/-- a measurement-free operation keeps the weight exactly -/
+theorem stabGate_total_mfree (np n : Nat) (det : Bool) (op : COp)
+    (hf : op.kind.isOneQubit = true ∨ op.kind.isCtrlPair = true) (s s' : StabSt) (h : stabGate np n det op s = .ok s') :
     Mix.total s'.mix = Mix.total s.mix := by
   unfold stabGate at h
   simp only at h
@@ -366,27 +445,32 @@ theorem stabGate_total (np n : Nat) (det : Bool) (op : COp) (s s' : StabSt) (h :
     | (injection h with h; subst h; rfl)
     | exact stabMap1_total _ _ _ _ _ h
     | exact stabMap2_total _ _ _ _ _ _ h
-    | exact stabClassical_total _ _ _ _ _ _ _ _ _ h
-    | exact stabMeasZ_total _ _ _ _ _ _ h
     | cases h
+    | (rcases hf with hf | hf <;> simp [hk, Kind.isOneQubit, Kind.isCtrlPair] at hf)
 
 theorem stabAct_total (np n : Nat) (det : Bool) (arr : Array COp) (s s' : StabSt) (a : Act)
-    (h : stabAct np n det arr s a = .ok s') : Mix.total s'.mix = lossOf a * Mix.total s.mix := by
+    (h : stabAct np n det arr s a = .ok s') :
+    Mix.total s'.mix = lossOf a * Mix.total s.mix ∨ Mix.total s'.mix = 0 := by
   cases a with
-  | gate k => simp only [stabAct] at h; rw [stabGate_total _ _ _ _ _ _ h]; simp [lossOf]
+  | gate k =>
+    simp only [stabAct] at h
+    rcases stabGate_total _ _ _ _ _ _ h with e | e
+    · left; rw [e]; simp [lossOf]
+    · exact Or.inr e
   | noise k side q nm =>
     simp only [stabAct] at h
     cases hn : Mix.applyNoise nm q s.mix with
     | error e => rw [hn] at h; cases h
     | ok m' =>
       rw [hn] at h; injection h with h; subst h
+      left
       rw [applyNoise_total nm q s.mix m' hn]
       cases nm <;> simp [lossOf]
   | replace k => simp [stabAct] at h
 
 theorem runStabActs_total (np n : Nat) (det : Bool) (arr : Array COp) :
     ∀ (acts : List Act) (s s' : StabSt), runStabActs np n det arr acts s = .ok s' →
-      Mix.total s'.mix = lossFactor acts * Mix.total s.mix
+      Mix.total s'.mix = lossFactor acts * Mix.total s.mix ∨ Mix.total s'.mix = 0
   | [], s, s', h => by simp [runStabActs] at h; subst h; simp [lossFactor]
   | a :: as, s, s', h => by
     simp only [runStabActs] at h
@@ -394,14 +478,20 @@ theorem runStabActs_total (np n : Nat) (det : Bool) (arr : Array COp) :
     | error e => rw [ha] at h; cases h
     | ok s1 =>
       rw [ha] at h
-      rw [runStabActs_total np n det arr as s1 s' h, stabAct_total np n det arr s s1 a ha]
-      simp only [lossFactor]; ring
+      rcases runStabActs_total np n det arr as s1 s' h with e | e
+      · rcases stabAct_total np n det arr s s1 a ha with e1 | e1
+        · left; rw [e, e1]; simp only [lossFactor]; ring
+        · right; rw [e, e1]; ring
+      · exact Or.inr e
 
 /-- **C06 (b), every circuit.**  Whenever the stabilizer compile loop returns, the placement tree produced a trace and the
-    total weight of the mixture is the initial weight times `∏ (1 − loss_j)` over the loss events of that trace. -/
+    total weight of the mixture is the initial weight times `∏ (1 − loss_j)` over the loss events of that trace — or `0`, when a
+    (repaired, joint) measurement selected an outcome that carries no weight and set every weight to `0.0 · p_i` (only possible
+    at a total weight within `np.isclose`'s tolerance of 0). -/
 theorem stabGo_total (noiseSim : Bool) (np n : Nat) (det : Bool) (arr : Array COp) :
     ∀ (ops : List COp) (k : Nat) (s s' : StabSt), stabGo noiseSim np n det arr ops k s = .ok s' →
-      ∃ tr, traceGo noiseSim .stab np ops k = .ok tr ∧ Mix.total s'.mix = lossFactor tr * Mix.total s.mix
+      ∃ tr, traceGo noiseSim .stab np ops k = .ok tr ∧
+        (Mix.total s'.mix = lossFactor tr * Mix.total s.mix ∨ Mix.total s'.mix = 0)
   | [], k, s, s', h => by
     simp [stabGo] at h; subst h; exact ⟨[], rfl, by simp [lossFactor]⟩
   | op :: rest, k, s, s', h => by
@@ -419,7 +509,11 @@ theorem stabGo_total (noiseSim : Bool) (np n : Nat) (det : Bool) (arr : Array CO
           obtain ⟨tr, htr, ht⟩ := stabGo_total noiseSim np n det arr rest (k + 1) s1 s' h
           refine ⟨acts ++ tr, ?_, ?_⟩
           · simp only [traceGo, hp, htr]
-          · rw [ht, runStabActs_total np n det arr acts s s1 hr, lossFactor_append]; ring
+          · rcases ht with ht | ht
+            · rcases runStabActs_total np n det arr acts s s1 hr with e | e
+              · left; rw [ht, e, lossFactor_append]; ring
+              · right; rw [ht, e]; ring
+            · exact Or.inr ht
 
 end Graphiq.Noise
 
@@ -486,15 +580,45 @@ theorem keeps_resetZ (n q : Nat) (hq : q < n) (i o : Bool) : KeepsOK n (fun t =>
   fun t h v => ⟨by rw [resetZ_n]; exact h, resetZ_valid t q i o (h ▸ hq) v⟩
 theorem keeps_id (n : Nat) : KeepsOK n (fun t => t) := fun _ h v => ⟨h, v⟩
 
+theorem jointBranch_tab (q : Nat) (o : Bool) (y z : Rat × Tab) (h : Mix.jointBranch q o y = some z) :
+    z.2 = (y.2.zMeasure q o).1.norm ∧ (z.1 = y.1 / 2 ∨ z.1 = y.1) := by
+  unfold Mix.jointBranch at h
+  cases hp : y.2.pivot q with
+  | some p => simp only [hp] at h; injection h with h; subst h; exact ⟨rfl, Or.inl rfl⟩
+  | none =>
+    simp only [hp] at h
+    split at h
+    · injection h with h; subst h; exact ⟨rfl, Or.inr rfl⟩
+    · cases h
+
+/-- every branch the repaired measurement returns is a measured branch of the input (with some forced outcome) -/
+theorem mem_measure (q : Nat) (det : Bool) (m : Mixture) (x : Rat × Tab) (hx : x ∈ (Mix.measure q det m).1) :
+    ∃ y ∈ m, ∃ o, x.2 = (y.2.zMeasure q o).1.norm := by
+  unfold Mix.measure at hx
+  simp only at hx
+  generalize (if det = true then !DM.isclose0 (Mix.total (Mix.measureJoint q true m))
+    else DM.isclose0 (Mix.total (Mix.measureJoint q false m))) = oc at hx
+  by_cases h : 0 < (if oc = true then Mix.total (Mix.measureJoint q true m) else Mix.total (Mix.measureJoint q false m))
+  · rw [if_pos h] at hx
+    simp only [List.mem_map] at hx
+    obtain ⟨z, hz, rfl⟩ := hx
+    unfold Mix.measureJoint at hz
+    rw [List.mem_filterMap] at hz
+    obtain ⟨y, hy, hj⟩ := hz
+    exact ⟨y, hy, oc, (jointBranch_tab q oc y z hj).1⟩
+  · rw [if_neg h] at hx
+    simp only [List.mem_map] at hx
+    obtain ⟨y, hy, rfl⟩ := hx
+    exact ⟨y, hy, oc, rfl⟩
+
 theorem measure_ok (n q : Nat) (hq : q < n) (det : Bool) (m : Mixture) (hm : MixOK n m) : MixOK n (Mix.measure q det m).1 := by
   intro x hx
-  simp only [Mix.measure, List.map_map, List.mem_map] at hx
-  obtain ⟨⟨p, t⟩, hy, rfl⟩ := hx
-  obtain ⟨h1, h2⟩ := hm (p, t) hy
-  simp only [Function.comp]
+  obtain ⟨y, hy, o, e⟩ := mem_measure q det m x hx
+  obtain ⟨h1, h2⟩ := hm y hy
+  rw [e]
   refine ⟨?_, ?_⟩
   · rw [Tab.norm_n, zMeasure_n]; exact h1
-  · exact Tab.norm_valid _ (zMeasure_valid t q det (h1 ▸ hq) h2)
+  · exact Tab.norm_valid _ (zMeasure_valid y.2 q o (h1 ▸ hq) h2)
 
 theorem conditioned_ok (n : Nat) (f : Tab → Tab) (hf : KeepsOK n f) (outs : List Bool) (m : Mixture) (hm : MixOK n m) :
     MixOK n (Mix.conditioned f outs m) := by
